@@ -230,3 +230,4 @@ def lineageTreeTwin : Bool := {_bool(out['lineageTreeTwin'])}
 
 
 EXTRACTORS = [("lca", x_lca)]
+SERVES = ["C18"]
